@@ -307,7 +307,13 @@ func buildSCloud(exports []types.ExportSegment) ([]types.OpaqueHash, error) {
 func mergeBCloudSCloud(bcloud []types.OpaqueHash, scloud []types.OpaqueHash) types.OpaqueHash {
 	merged := make([]types.ByteSequence, len(bcloud))
 	for i := range bcloud {
-		pair := append(bcloud[i][:], scloud[i][:]...)
+		// a package without exports has no segment shards: the per-shard segment root is then the
+		// well-balanced Merkle root of the empty sequence, i.e. the zero hash
+		var segmentRoot types.OpaqueHash
+		if i < len(scloud) {
+			segmentRoot = scloud[i]
+		}
+		pair := append(bcloud[i][:], segmentRoot[:]...)
 		merged[i] = types.ByteSequence(pair)
 	}
 	return merkle_tree.Mb(merged, hash.Blake2bHash)
